@@ -29,6 +29,6 @@ CONFIG = {
     "C16": {"jobs": [special("streams", 1500, 30000)]},
     "C17": {"jobs": [lockstep("C17", 4000, 60000)]},
     "C18": {"jobs": [lockstep("C18", 4000, 60000)]},
-    "C19": {"jobs": [lockstep("C19", 3000, 60000), special("kbdexhaustive", 1, 1)]},
+    "C19": {"jobs": [lockstep("C19", 3000, 60000), special("kbdexhaustive", 1, 2)]},
     "C20": {"jobs": [special("gridspan", 3000, 60000), lockstep("C20", 2000, 30000)]},
 }
